@@ -54,6 +54,12 @@ struct MemStream {
 bool save_rules(YR_RULES* r, std::string& out, int* rc = nullptr);
 int load_rules(const std::string& image, YR_RULES** out, size_t max_chunk = 0);
 
+// Poison (ASan) the unused tail [used, size) of every arena buffer of a rule
+// set, so that any read past the logical end of a section traps at once
+// instead of silently seeing whatever the allocator left there.  No-op
+// without ASan.  Must be undone before the rules are destroyed.
+void poison_slack(YR_RULES* r, bool on);
+
 // ----------------------------------------------------------------- corpus ---
 std::string read_file(const std::string& path, bool* ok = nullptr);
 bool write_file(const std::string& path, const std::string& data);
